@@ -88,3 +88,19 @@ MUTS = [
 		r.abortLeaderTransfer()
 	}''', '''	_ = timeToAbortLeaderTransfer''')]),
 ]
+
+MUTS += [
+ dict(name='c04-send-before-save', props=['C04'], edits=[('engine.go', '''	verifhook.Updates(verifhook.PreSave, nodeUpdates)
+	if err := e.logdb.SaveRaftState(nodeUpdates, workerID); err != nil {
+		return err
+	}''', '''	for _, ud := range nodeUpdates {
+		nodes[ud.ShardID].sendMessages(ud.Messages)
+	}
+	verifhook.Updates(verifhook.PreSave, nodeUpdates)
+	if err := e.logdb.SaveRaftState(nodeUpdates, workerID); err != nil {
+		return err
+	}'''), ('node.go', '''	n.sendMessages(ud.Messages)
+	if err := n.removeLog(); err != nil {''', '''	if err := n.removeLog(); err != nil {''')]),
+ dict(name='c04-pebble-nosync', props=['C04'], edits=[('internal/logdb/kv/pebble/kv_pebble.go', '''	wo := &pebble.WriteOptions{Sync: true}''', '''	wo := &pebble.WriteOptions{Sync: false}''')]),
+ dict(name='c04-tan-skip-sync-on-state', props=['C04'], edits=[('internal/tan/db.go', '''		len(u.EntriesToSave) > 0 || stateSyncChange(u.State, st)''', '''		len(u.EntriesToSave) > 0''')]),
+]
